@@ -22,7 +22,7 @@ CHECKS = {
          'memkv for goleveldb, real blockfile on tmpfs; identical transaction objects in two blocks are outside consensus guarantees and not explored', '5 C09'),
  'C14': ('chainmc', 'model_checking',
          'explicit-state BFS over transfer/fee block histories on the real executor against an arithmetic reference model',
-         'All block histories up to depth 2 (thorough 3) over 23 block kinds: transfers with amount in {0,1,balance,balance+1,balance-fee,10^40,non-numeric,negative} between rich/poor/self/admin accounts whose balances sit at fee-1, fee, fee+1, fee+9, succeeding and failing contract calls, multi-tx blocks; per block the sum and sign of all persisted balances, receipt verdicts and every account balance are compared with the reference. Grant part: BFS (depth 7, thorough 9, abstraction on governance statuses) over register governance / audit admin, freeze, activate, logout, logout of the bound audit node, bind to another node, each approved or rejected: the total grows only in the step approving a registration, by exactly the configured grant.',
+         'All block histories up to depth 2 (thorough 3) over 23 block kinds: transfers with amount in {0,1,balance,balance+1,balance-fee,10^40,non-numeric,negative} between rich/poor/self/admin accounts whose balances sit at fee-1, fee, fee+1, fee+9, succeeding and failing contract calls, multi-tx blocks, plus every ordered pair (thorough: triple) of the 21 single-transaction kinds as one block; per block the sum and sign of all persisted balances, receipt verdicts and every account balance are compared with the reference. Grant part: BFS (depth 7, thorough 9, abstraction on governance statuses) over register governance / audit admin, freeze, activate, logout, logout of the bound audit node, bind to another node, each approved or rejected: the total grows only in the step approving a registration, by exactly the configured grant.',
          'memkv for goleveldb; gas price 50000 and 4 admins (grant part: gas price 0)', '5 C14'),
  'C10': ('enum', 'model_checking',
          'bounded-exhaustive enumeration of write sets x permutations x read patterns x residency on the real StateLedger',
@@ -30,7 +30,7 @@ CHECKS = {
          'memkv stands in for goleveldb (same observable semantics); universe of 2 accounts, 3 keys, 2-3 values; lists carrying one transaction twice are not explored', '5 C10'),
  'C11': ('crashmc', 'fault_enumeration',
          'exhaustive enumeration of crash states (products of per-writer prefixes of the recorded durable writes of a block commit), each reopened through the real ledger.New and compared with a never-crashed replica',
-         'For every block commit of three scenarios (heights 13-16 with journal pruning, heights 2-4, genesis) all products of prefixes of state-store batches x chain-index batch x ordered blockfile appends are materialised and reopened; opens, height, readable hash-linked blocks, state version/root/content equal to the never-crashed replica, and re-execution of the remaining blocks are checked. Opens that would spin forever or continuations that would kill the process are confirmed in CPU-limited subprocesses. Five structural defects are recorded as known findings (22 class signatures).',
+         'For every block commit of four scenarios (heights 13-16 with journal pruning on a chain reopened after its prelude, heights 13-14 on a node never restarted since genesis, heights 2-4, genesis) all products of prefixes of state-store batches x chain-index batch x ordered blockfile appends are materialised and reopened; opens, height, readable hash-linked blocks, state version/root/content equal to the never-crashed replica, and re-execution of the remaining blocks are checked. Opens that would spin forever or continuations that would kill the process are confirmed in CPU-limited subprocesses. Five structural defects are recorded as known findings (22 class signatures).',
          'process death only (each durable write all-or-nothing, per-writer program order); memkv for goleveldb, real blockfile', '5 C11'),
  'C12': ('ledgermc', 'model_checking',
          'explicit-state BFS over block histories with rollback(t) on the real StateLedger against recorded reference states',
@@ -86,7 +86,7 @@ CHECKS.update({
 CHECKS.update({
  'C20': ('ordermc', 'model_checking',
          'deviation-bounded exhaustive DFS over the scheduler choices of a 3-replica cluster of real etcdraft nodes and of the solo node stepped one event at a time (select-case bodies extracted from the current source, raft state machine stepped synchronously, harness network/executor, real WAL); plus exhaustive enumeration of sync ranges, choice-point DFS over the real state syncer, and explicit-state BFS over the raft node\'s apply path for every short committed log',
-         'D: three real etcdraft.Node replicas: default schedule + every single deviation (quick; about 12000 executions) and every pair of fault-class deviations until the deadline (thorough), a deviation being another enabled internal event (ready / propose / deliver any pending message / execute / report / restart), dropping or duplicating a message, crashing a replica with or without its in-flight messages, a spontaneous election, a tick; 4 configurations (batch size 1, pipelined submissions, batch size 2 with batch timeout, snapshot_count 2 with compaction, MsgSnap, recoverFromSnapshot and block fetches); oracles: delivered height = last executed + 1 on every replica across restarts, identical block content on all replicas, a transaction in at most one block, no replica death, at quiescence every committed batch delivered. E: the solo orderer likewise. A: calcRangeHeight for all begin,end in 0..28 (thorough 0..40) x fetch 1..8. B: real SyncCFTBlocks for every pattern of <=2 fetch failures x every peer pick. C: the node\'s apply path under all interleavings of hand-over chunks, re-delivery, executor reports and crash+restart for every committed log of length 4 (thorough 5).',
+         'D: three real etcdraft.Node replicas: default schedule + every single deviation (quick; about 18000 executions) and every pair of fault-class deviations until the deadline (thorough), a deviation being another enabled internal event (ready / propose / deliver any pending message / execute / report / restart), dropping or duplicating a message, crashing a replica with or without its in-flight messages, a spontaneous election, a tick; 5 configurations (batch size 1, pipelined submissions, batch size 2 with batch timeout, snapshot_count 2 with compaction, MsgSnap, recoverFromSnapshot and block fetches, and the same with a follower whose executor is stalled two blocks behind its orderer while it is partitioned away and then caught up by a snapshot); oracles: delivered height = last executed + 1 on every replica across restarts, identical block content on all replicas, a transaction in at most one block, no replica death, at quiescence every committed batch delivered. E: the solo orderer likewise. A: calcRangeHeight for all begin,end in 0..28 (thorough 0..40) x fetch 1..8. B: real SyncCFTBlocks for every pattern of <=2 fetch failures x every peer pick. C: the node\'s apply path under all interleavings of hand-over chunks, re-delivery, executor reports and crash+restart for every committed log of length 4 (thorough 5).',
          'elections are explicit campaign events with pre-vote/check-quorum off (tick-driven timeouts are randomized inside the library); configuration changes not explored; the etcd raft library is trusted (its bootstrap code is repeated in a synchronous wrapper added through the overlay); a peer is assumed able to serve every block it has been handed', '5 C20'),
 })
 CHECKS.update({
